@@ -573,6 +573,14 @@ impl NetcodeServer {
         let max_clients = max_clients.min(NETCODE_MAX_CLIENTS);
         log::debug!("Netcode max_clients set to {}", max_clients);
 
+        if max_clients > self.clients.len() {
+            // Grow the client slots, otherwise raising the limit would have no effect
+            // and new clients would be denied even with connected_clients() < max_clients()
+            let mut clients = std::mem::take(&mut self.clients).into_vec();
+            clients.resize(max_clients, None);
+            self.clients = clients.into_boxed_slice();
+        }
+
         self.max_clients = max_clients;
     }
 
